@@ -279,3 +279,54 @@ def inline_local_calls(fn_body, local_fns, pred, depth=2, skip=None):
         mapping = dict(zip(names, args))
         for node, _ln in inline_local_calls(callee.hir["body"], local_fns, pred, depth - 1, skip):
             yield subst(node, mapping), c.get("ln")
+
+
+def tails(e):
+    """leaf expressions an expression can evaluate to (through blocks, if/else and match arms)"""
+    e = strip(e)
+    k = e.get("k")
+    if k == "block":
+        return tails(e["e"]) if e.get("e") is not None else []
+    if k == "if":
+        return tails(e["then"]) + (tails(e["else"]) if e.get("else") is not None else [])
+    if k == "match":
+        return [t for a in e["arms"] for t in tails(a["body"])]
+    return [e]
+
+
+def local_values(body, name):
+    """every expression a local is bound / assigned to in `body` (tuple patterns resolved component-wise against tuple
+    expressions at the tails of the initialiser); None stands for a value that could not be resolved"""
+    out = []
+    for l in find(body, "let"):
+        if l.get("init") is None:
+            continue
+        p = l["pat"]
+        if p.get("k") == "bind" and p.get("name") == name:
+            out += tails(l["init"])
+        elif p.get("k") == "tuple":
+            for i, s in enumerate(p.get("subs") or []):
+                if s.get("k") == "bind" and s.get("name") == name:
+                    for t in tails(l["init"]):
+                        out.append(t["es"][i] if t.get("k") == "tup" and i < len(t.get("es") or []) else None)
+    for a in find(body, "assign"):
+        l_ = strip(a["l"])
+        if l_.get("k") == "path" and l_["res"].get("local") == name:
+            out += tails(a["r"])
+    return out
+
+
+def value_leaves(body, e, depth=4):
+    """leaves of the value of `e` with single-level casts / conversions peeled and locals resolved through their bindings"""
+    e = strip(e)
+    while e.get("k") in ("cast",) or (e.get("k") == "mcall" and e["m"] in ("into", "try_into", "unwrap", "clone", "unwrap_or_default") and not e.get("args")) or \
+            (e.get("k") == "call" and (e.get("fn") or "").endswith("::from") and len(e.get("args") or []) == 1) or e.get("k") == "try":
+        e = strip(e["e"] if e.get("k") in ("cast", "try") else (e["recv"] if e.get("k") == "mcall" else e["args"][0]))
+    if e.get("k") == "path" and "local" in e["res"] and depth > 0:
+        vals = local_values(body, e["res"]["local"])
+        if vals:
+            out = []
+            for v in vals:
+                out += [None] if v is None else value_leaves(body, v, depth - 1)
+            return out
+    return [e]
